@@ -1073,10 +1073,33 @@ class FlowDomain(Domain):
                     self.flag_invariant_used = True
                     clean = frozenset(x for x in tok if x[0] != 'RAM')
                 return [(tok, 'T'), (clean, 'F')]
+        if fn is not None and fn.endswith(('HashMap::<K, V, S, A>::remove', 'HashMap::<K, V, S, A>::clear', 'HashMap::<K, V, S, A>::retain')) \
+                and term['args'] and term['args'][0]['k'] in ('copy', 'move') and self._is_newmap(fr, term['args'][0]):
+            self._site('newmap-remove', fr, bi, '')
+            pend = ('F', 'ZMPENDING') in tok
+            self._ob('C04.O8', fr, bi, not pend, 'new-cluster marks removed in %s while a zeroing request created earlier in it has not completed' % short(fr.body.path))
+            if pend:
+                self._viol('C04.O8', 'C04.O8:%s' % short(fr.body.path), fr, bi,
+                           '%s removes clusters from the new-cluster map before the zeroing request it created for them has '
+                           'completed: a slice of such a cluster that is looked up meanwhile is loaded from the stale bytes in the '
+                           'file instead of being built empty, and is written back over the table; path %s' % (
+                               short(fr.body.path), fr.chain_str()))
         if fn in ('std::mem::drop', 'core::mem::drop') and term['args'] and term['args'][0]['k'] == 'move':
             l = term['args'][0]['pl']['l']
             tok = frozenset(x for x in tok if not (len(x) > 3 and x[0] == 'F' and x[1] == 'HOLDW' and x[3] == l))
         return [(tok, None)]
+
+    def _is_newmap(self, fr, a):
+        """the operand is (a reference / guard of) the new-cluster map: HashMap<u64, RwLock<bool>>"""
+        tid = self.p.subst(fr.body.locals[a['pl']['l']], fr.ctx)
+        def hit(x):
+            if x['k'] != 'adt' or x.get('p') != 'std::collections::HashMap':
+                return False
+            args = x.get('a') or []
+            if len(args) < 2:
+                return False
+            return self.f.type_contains(args[1], lambda y: y['k'] == 'adt' and y.get('p') == 'futures_locks::RwLock')
+        return self.f.type_contains(tid, hit)
 
     def _holdw(self, tok):
         r = self._hw.get(tok)
